@@ -863,6 +863,8 @@ class Engine:
                 m = re.match(r'(.+) as (.+) \((\w+(?:\(.*\))?)\)$', r)
                 if m: return self.cast(self.operand(st, fr, m.group(1)), m.group(2), m.group(3))
             return self.operand(st, fr, r)
+        m = re.match(r'([\w:<>{}#@ ]+?) as .*\(PointerCoercion\(ReifyFnPointer', r)
+        if m and not r.startswith(('copy ', 'move ')): return Opaque('fnptr', (strip_generics(m.group(1).replace('const ', '')),))      # a function item turned into a function pointer
         if r.startswith('&'):
             body = re.sub(r'^&(raw const |raw mut |mut |fake shallow |fake )?', '', r)
             pl = parse_place(body); f, l, p = self.resolve(st, fr, pl)
@@ -918,15 +920,15 @@ class Engine:
         if m:
             fs = [self.operand(st, fr, x.split(': ', 1)[1]) for x in split_top(m.group(2))] if m.group(2) else []
             return Closure(m.group(1), fs)
-        m = re.match(r'([\w:<>(), &\[\]\'!;]+?)::(\w+)\((.*)\)$', r)
+        m = re.match(r'([\w:<>(), &\[\]\'!;\-+*]+?)::(\w+)\((.*)\)$', r)
         if m and m.group(2)[0].isupper():
             vi = self.types.variant_index(m.group(2), strip_generics(m.group(1)))
             return Enum(vi, {vi: [self.operand(st, fr, x) for x in split_top(m.group(3))]}, strip_generics(m.group(1)).split('::')[-1])
-        m = re.match(r'([\w:<>(), &\[\]\'!;]+?)::(\w+) \{(.*)\}$', r)
+        m = re.match(r'([\w:<>(), &\[\]\'!;\-+*]+?)::(\w+) \{(.*)\}$', r)
         if m and m.group(2)[0].isupper() and strip_generics(m.group(1)).split('::')[-1] in self.types.enums:
             vi = self.types.variant_index(m.group(2), strip_generics(m.group(1)))
             return Enum(vi, {vi: [self.operand(st, fr, x.split(': ', 1)[1]) for x in split_top(m.group(3))]}, strip_generics(m.group(1)).split('::')[-1])
-        m = re.match(r'([\w:<>(), &\[\]\'!;]+?)::(\w+)$', r)
+        m = re.match(r'([\w:<>(), &\[\]\'!;\-+*]+?)::(\w+)$', r)
         if m and m.group(2)[0].isupper():
             try:
                 vi = self.types.variant_index(m.group(2), strip_generics(m.group(1)))
